@@ -135,6 +135,11 @@ func (P *Program) inlineBoolHelper(call *ssa.Call, k int, depth int) *formula {
 	if _, isC := rv.(*ssa.Const); isC {
 		return nil
 	}
+	if u, isLoad := rv.(*ssa.UnOp); isLoad && u.Op == token.MUL {
+		if cell := P.cellOf(u.X); cell != nil {
+			return nil // result variable assigned on several paths (range-over-func bodies): judged by its outcomes
+		}
+	}
 	if P.inlineBusy == nil {
 		P.inlineBusy = map[*ssa.Function]bool{}
 	}
